@@ -117,7 +117,50 @@ def run_C11(ctx, E):
     stage_record_trace(ctx, E, "calls", "C11_Trace", "C11_Trace.cfg", heap="8g")
 
 
+# ------------------------------------------------------------------ C04 / C05
+def run_C04(ctx, E):
+    ctx.exhaustive = True
+    for m in ("dna", "rna", "iupac", "nucfull"):
+        stage_mc_replay(ctx, E, m, "C04_MC", "C04_MC_%s_%s.cfg" % (ctx.tier, m))
+    stage_record_trace(ctx, E, "meta", "C04_Trace", "C04_Trace.cfg", heap="8g")
+
+
+def run_C05(ctx, E):
+    ctx.exhaustive = True
+    for m in ("dna", "rna", "iupac", "nucfull", "protein", "invalid"):
+        stage_mc_replay(ctx, E, m, "C04_MC", "C04_MC_%s_%s.cfg" % (ctx.tier, m))
+    stage_record_trace(ctx, E, "sep", "C04_Trace", "C04_Trace.cfg", heap="8g")
+
+
+_seqhash_note = ("trusted: TLC, community modules; the digest is uninterpreted in the specification and instantiated "
+                 "in the replayer by a from-scratch BLAKE3 transcription pinned by the official test vectors; "
+                 "double-stranded inputs containing Z or (under type DNA) U are outside the strand clause and not replayed")
 PROPS = {
+    "C04": dict(run=run_C04,
+                technique="TLC exhaustive evaluation of Seqhash.tla (canonical form, brute-force orbits) with orbit-"
+                          "invariance theorems; every emitted (input, flags, tag, canon) replayed on seqhash.Hash; "
+                          "TLC trace validation of metamorphic call pairs",
+                level_text="every ACGT word to length 6 (quick) / 9 (thorough) under all flag combinations and both "
+                           "nucleic-acid types, IUPAC+U words to length 2 / 4 and the full accepted alphabet with lower "
+                           "case to length 2 / 3 are TLC states; CanonConstant / CaseBlind / RnaDna are checked on the "
+                           "definition and the real identifier must equal v1_tag_BLAKE3(canon) for each state in upper, "
+                           "lower and alternating case; recorded pairs (rotation, strand, both, case, RNA spelling) up to "
+                           "10^5 bases are re-verified natively by C04_Trace and must hash equally",
+                level_note=_seqhash_note,
+                rule="S->I: one case per TLC state (word) carrying every in-domain flag combination; I->S: metamorphic "
+                     "pairs derived by the harness from random, periodic and reverse-palindromic sequences"),
+    "C05": dict(run=run_C05,
+                technique="TLC exhaustive evaluation of Seqhash.tla with the theorem that <<tag, canon>> is a complete "
+                          "orbit invariant; emitted cases (accept / tag / canon) replayed on seqhash.Hash against an "
+                          "independent BLAKE3; TLC trace validation of near-miss pairs and rejections",
+                level_text="as C04 plus protein words to length 2 / 3, every printable single letter (pairs in thorough) "
+                           "under seven type spellings; CanonInOrbit + CanonConstant make equality with "
+                           "v1_tag_BLAKE3(canon) on every state decide separation on the whole enumerated domain; "
+                           "recorded near-miss pairs up to 200 letters must hash equally exactly when Canon is equal, "
+                           "and rejections must match Accepts",
+                level_note=_seqhash_note,
+                rule="S->I: one case per TLC state; I->S: near-miss pairs (rotation when linear, strand when single "
+                     "stranded, point mutation, reversal, complement, indel) and rejection events"),
     "C11": dict(run=run_C11,
                 technique="TLC exhaustive evaluation of set-semantics IUPAC definitions (Nucleotides.tla) with theorem "
                           "invariants, all emitted cases replayed on the real functions, plus TLC trace validation",
